@@ -77,6 +77,9 @@ func corrupt(reply []byte, k corruption) []byte {
 		}
 	case "extend":
 		out = append(out, k.Data...)
+	case "prepend":
+		// extension at the front: noise bytes received before the frame (bus turn-around)
+		out = append(append([]byte(nil), k.Data...), out...)
 	case "swap":
 		// exchange two adjacent bytes (Pos, Pos+1); Pos = len-2 exchanges the two CRC bytes
 		if k.Pos+1 < len(out) {
@@ -201,7 +204,12 @@ func genCRC(t *rapid.T, kinds []string) crcCase {
 		panic(err)
 	}
 	L := len(reply)
-	switch rapid.IntRange(0, 6).Draw(t, "corr") {
+	switch rapid.IntRange(0, 7).Draw(t, "corr") {
+	case 7:
+		c.Corr = corruption{Kind: "prepend", Data: gen.Payload(t, "pre", rapid.IntRange(1, 3).Draw(t, "pren"))}
+		if rapid.Bool().Draw(t, "pre_hot") {
+			c.Corr.Data = rapid.SampledFrom([][]byte{{0}, {0xFF}, {0xFF, 0x7E}, {0, 0}}).Draw(t, "pre_h")
+		}
 	case 6:
 		c.Corr = corruption{Kind: "swap", Pos: L - 2}
 		if rapid.Bool().Draw(t, "swap_any") {
